@@ -16,6 +16,7 @@ import (
 	"github.com/zishang520/engine.io/v2/transports"
 	"github.com/zishang520/engine.io/v2/types"
 
+	"verifh/fakenet"
 	"verifh/refcodec"
 	"verifh/rep"
 	"verifh/rig"
@@ -31,7 +32,10 @@ type c12Case struct {
 	Cause       string `json:"cause"`
 	Sessions    int    `json:"sessions"`
 	Upgrading   bool   `json:"upgrade_in_progress"`
-	Seed        string `json:"seed"`
+	// Stalled (silent mode, WebSocket/WebTransport): the client has stopped reading and its
+	// connection is full, so the transport's writer goroutine is blocked in the middle of the batch
+	Stalled bool   `json:"client_stopped_reading"`
+	Seed    string `json:"seed"`
 }
 
 func genC12(rng *rand.Rand) c12Case {
@@ -49,6 +53,7 @@ func genC12(rng *rand.Rand) c12Case {
 		c.Sessions = 9 + rng.IntN(12)
 	}
 	c.Upgrading = c.Transport == "polling" && rng.IntN(5) == 0
+	c.Stalled = c.Mode == "silent" && c.Transport != "polling" && rng.IntN(2) == 0
 	return c
 }
 
@@ -87,6 +92,25 @@ func runC12(c c12Case, r *rep.Report) (key, msg string, stats map[string]int64) 
 					}
 				} else {
 					cl.StartReader()
+				}
+				if c.Stalled {
+					var nc *fakenet.Conn
+					if cl.WS != nil {
+						nc, _ = cl.WS.UnderlyingConn().(*fakenet.Conn)
+					} else if cl.WTStream != nil {
+						nc = cl.WTStream.Conn
+					}
+					if nc != nil {
+						nc.LimitReceiveBuffer(1)
+						nc.StallReads(true)
+						// two frames fill the connection: the writer goroutine blocks inside the second
+						sock.Send(types.NewStringBufferString("fill-0"), nil, nil)
+						time.Sleep(time.Millisecond)
+						sock.Send(types.NewStringBufferString("fill-1"), nil, nil)
+						time.Sleep(time.Millisecond)
+						rig.Wait()
+						stats["stalled_clients_with_a_blocked_writer"]++
+					}
 				}
 				point := map[string]string{"polling": "polling.send.start", "websocket": "ws.send.start", "webtransport": "wt.send.start"}[c.Transport]
 				if c.GateSend {
